@@ -7,6 +7,9 @@ Reads `<repo>/src/*.rs` and (re)writes
 
     lean/SqlDt/Translated.lean        namespace SqlDt.Tr: one `def` per whitelisted function
     lean/SqlDt/TranslatedStatus.json  which of them are real translations, which are stubs, and why
+    lean/SqlDt/TranslatedFmt.lean, TranslatedFmtStatus.json
+                                      the same for the byte-slice leaf functions of format.rs (`FMT_WHITELIST`, phase 6);
+                                      the first two files do not depend on that list
 
 Every whitelisted function `f` gets a definition `SqlDt.Tr.f`; `lean/SqlDt/Lemmas/TranslatedEq.lean`
 (hand-written, stable) proves `Tr.f = <model f>` for all inputs.  If a function is missing, its signature
@@ -52,7 +55,9 @@ ENUM_AS_BOOL = {"AmPm": {"Am": "false", "Pm": "true"}}
 FNPTR_MAP = {"DateSubMethod": {"sub_to_date": "true", "current_date": "false"}}
 
 WL_NEWTYPES = ("Date", "Time", "Timestamp", "IntervalYM", "IntervalDT", "OracleDate")
-WL_ENUMS = ("Sign", "WeekDay", "Ordering")
+WL_ENUMS = ("Sign", "WeekDay", "Ordering", "AmPmStyle", "NameStyle", "Month")
+# fieldless enums without explicit discriminants that are used as their (implicit) discriminants 0, 1, 2, ...
+IMPLICIT_DISCR_ENUMS = ("AmPmStyle",)
 
 # enums whose `From<usize>` is checked (below) to be the identity on the discriminant
 ENUM_FROM_INT_IDENTITY = set()
@@ -299,6 +304,46 @@ CONST_WHITELIST = [
     ("common.rs", "TIMESTAMP_MAX", "SqlDt.TIMESTAMP_MAX"),
 ]
 
+# ---- Phase 6: the byte-slice leaf functions of format.rs.  They are emitted into a file of their own
+# (`TranslatedFmt.lean` / `TranslatedFmtStatus.json`); `Translated.lean` is not affected by this list.
+# Text is `List Nat` as in the model (`Bytes`); `usize` parameters are `Int` here and `Nat` in the model (`.toNat`).
+FMT_WHITELIST = [
+    ("format.rs", None, "expect_char", "expect_char", "s: &[u8], expected: u8", "bool",
+     "fun s expected => decide ((List.head? s).map Int.ofNat = some expected)"),
+    ("format.rs", None, "eat_whitespaces", "eat_whitespaces", "s: &[u8]", "&[u8]", "SqlDt.Parser.eatWhitespaces"),
+    ("format.rs", None, "eat_digits", "eat_digits", "s: &[u8], max_len: usize", "(&[u8], &[u8])",
+     "fun s max_len => SqlDt.Parser.eatDigits s max_len.toNat"),
+    ("format.rs", None, "parse_number", "parse_number", "input: &[u8], max_len: usize", "Result<(bool, i32, &[u8])>",
+     "fun input max_len => SqlDt.Parser.parseNumber input max_len.toNat"),
+    ("format.rs", None, "parse_week_day_number", "parse_week_day_number", "s: &[u8]", "Result<(WeekDay, &[u8])>",
+     "SqlDt.Parser.parseWeekDayNumber"),
+    # `fn write_u32<W: fmt::Write>(w: W, value, width) -> Result<()>`: the sink parameter is dropped, the result is the
+    # text written
+    ("format.rs", None, "write_u32", "write_u32", "value: u32, width: usize", "&[u8]",
+     "fun value width => SqlDt.writeU32 value width.toNat"),
+    # the two users of the `f64` table FRACTION_FACTOR (the model indexes the table of bit patterns through the
+    # panicking `idx`; the stand-in terms below read a panic as 0 - the theorems are stated for indices 0..9)
+    ("format.rs", None, "parse_fraction", "parse_fraction", "s: &[u8], max_len: usize", "Result<(u32, &[u8])>",
+     "fun s max_len => SqlDt.Parser.parseFraction s max_len.toNat"),
+    ("format.rs", "NaiveDateTime", "fraction", "NDT.fraction", "self, p: u8", "u32",
+     "fun dt p => match SqlDt.NDT.fraction dt p.toNat with | .ok v => v | .error _ => 0"),
+    # `AmPmStyle` is its discriminant 0..3 here (Upper, Lower, UpperDot, LowerDot: the model's `AmPmStyle.index`)
+    ("format.rs", None, "parse_ampm", "parse_ampm", "s: &[u8], style: AmPmStyle", "Result<(Option<AmPm>, &[u8])>",
+     "fun s style => SqlDt.Parser.parseAmPm s (if style = 0 then SqlDt.AmPmStyle.Upper else if style = 1 then "
+     "SqlDt.AmPmStyle.Lower else if style = 2 then SqlDt.AmPmStyle.UpperDot else SqlDt.AmPmStyle.LowerDot)"),
+    # search loops over the name tables of Generated.lean; `NameStyle` is its discriminant 0..5 (`NameStyle.index`)
+    ("format.rs", None, "parse_month_name", "parse_month_name", "s: &[u8]", "Result<(Month, &[u8])>",
+     "SqlDt.Parser.parseMonthName"),
+    ("format.rs", None, "parse_week_day_name", "parse_week_day_name", "s: &[u8], style: NameStyle", "Result<(WeekDay, &[u8])>",
+     "fun s style => SqlDt.Parser.parseWeekDayName s (if style = 0 then SqlDt.NameStyle.Capital else if style = 1 then "
+     "SqlDt.NameStyle.Lower else if style = 2 then SqlDt.NameStyle.Upper else if style = 3 then SqlDt.NameStyle.AbbrCapital "
+     "else if style = 4 then SqlDt.NameStyle.AbbrLower else SqlDt.NameStyle.AbbrUpper)"),
+    # the clock closure `get_now: &mut T` is the reading itself (a `Clock`); the model additionally reports whether the
+    # clock was read, which the crate keeps in the caller's cache: dropped here
+    ("format.rs", None, "parse_year", "parse_year", "input: &[u8], max_len: usize, get_now: Clock", "Result<(bool, i32, &[u8])>",
+     "fun input max_len now => (SqlDt.Parser.parseYear input max_len.toNat now).map (fun r => (r.1, r.2.1, r.2.2.1))"),
+]
+
 # ----------------------------------------------------------------------------------------------
 # 1. Lexer and item scanner
 # ----------------------------------------------------------------------------------------------
@@ -388,6 +433,11 @@ def lex(src):
             line += src.count("\n", start, j)
             toks.append(Tok("str", src[start:j], line, start, j))
             i = j
+        elif c == "b" and src.startswith("b'", i) and re.match(r"b'(\\x[0-9a-fA-F]{2}|\\.|[^'\\])'", src[i:]):
+            # byte literal: a `u8` integer
+            m = re.match(r"b'(\\x[0-9a-fA-F]{2}|\\.|[^'\\])'", src[i:])
+            toks.append(Tok("int", "%du8" % byte_value(m.group(1)), line, i, i + m.end()))
+            i += m.end()
         elif c == "'":
             m = re.match(r"'(\\.[^']*|[^'\\])'", src[i:])
             if m:
@@ -428,6 +478,42 @@ def lex(src):
                 toks.append(Tok("p", c, line, i, i + 1))
                 i += 1
     return toks
+
+
+BYTE_ESCAPES = {"n": 10, "r": 13, "t": 9, "0": 0, "\\": 92, "'": 39, '"': 34}
+
+
+def byte_value(text):
+    """Value of the inside of a byte literal: `+`, `\\n`, `\\x41`."""
+    if text.startswith("\\x"):
+        return int(text[2:], 16)
+    if text.startswith("\\"):
+        if text[1] not in BYTE_ESCAPES:
+            raise Unsupported("byte escape `%s`" % text)
+        return BYTE_ESCAPES[text[1]]
+    return ord(text)
+
+
+def byte_string(text):
+    """`b"A.M."` -> [65, 46, 77, 46]; `"abc"` likewise (ASCII only)."""
+    body = text[text.index('"') + 1:text.rindex('"')]
+    if text.startswith(("br", "r")):
+        return [ord(ch) for ch in body]
+    out, i = [], 0
+    while i < len(body):
+        if body[i] == "\\":
+            if body[i + 1] == "x":
+                out.append(int(body[i + 2:i + 4], 16))
+                i += 4
+            else:
+                out.append(byte_value(body[i:i + 2]))
+                i += 2
+        else:
+            if ord(body[i]) > 127:
+                raise Unsupported("non-ASCII string literal")
+            out.append(ord(body[i]))
+            i += 1
+    return out
 
 
 def match_close(toks, i):
@@ -654,6 +740,52 @@ def scan_items(crate, fname, src, toks, lo, hi, impl):
             name = toks[j + 1].text
             j += 2
             generic = toks[j].text == "<"
+            writer = clock = None
+            if generic:
+                # lifetimes are ignored; one type parameter bounded by `fmt::Write` is a byte sink (the translation
+                # returns the bytes written); any other type parameter makes the function generic
+                g0, depth, g1 = j + 1, 0, j
+                while True:
+                    if toks[g1].text == "<":
+                        depth += 1
+                    elif toks[g1].text == ">":
+                        depth -= 1
+                        if depth == 0:
+                            break
+                    elif toks[g1].text == ">>":
+                        depth -= 2
+                        if depth <= 0:
+                            break
+                    elif toks[g1].text == "(" :
+                        g1 = match_close(toks, g1)
+                    elif toks[g1].text == "->":
+                        pass
+                    g1 += 1
+                gparams, cur, depth = [], [], 0
+                for x in toks[g0:g1]:
+                    if x.text in ("<", "(", "["):
+                        depth += 1
+                    elif x.text in (">", ")", "]"):
+                        depth -= 1
+                    if x.text == "," and depth == 0:
+                        gparams.append(cur)
+                        cur = []
+                    else:
+                        cur.append(x)
+                if cur:
+                    gparams.append(cur)
+                tparams = [g for g in gparams if g and g[0].kind != "life"]
+                if not tparams:
+                    generic = False
+                elif len(tparams) == 1 and len(tparams[0]) >= 3 and tparams[0][1].text == ":" \
+                        and tparams[0][-1].text == "Write" and all(x.kind == "id" or x.text == "::" for x in tparams[0][2:]):
+                    generic, writer = False, tparams[0][0].text
+                elif len(tparams) == 1 and len(tparams[0]) >= 6 and tparams[0][1].text == ":" \
+                        and tparams[0][2].text in ("FnMut", "Fn", "FnOnce") and tparams[0][3].text == "(" \
+                        and tparams[0][4].text == ")" and tparams[0][5].text == "->" and tparams[0][-1].text == "NaiveDateTime":
+                    # `T: FnMut() -> chrono::NaiveDateTime`: a clock (the model passes the reading, a `Clock` value)
+                    generic, clock = False, tparams[0][0].text
+                j = g1 + 1          # the parameter list starts after the generics (which may contain `FnMut()`)
             while toks[j].text != "(":
                 j += 1
             k = match_close(toks, j)
@@ -713,6 +845,8 @@ def scan_items(crate, fname, src, toks, lo, hi, impl):
                 x += 1
             item = FnItem(fname, impl, name, params, ret, keep, t.line, src[toks[j].end:toks[k].pos])
             item.generic = generic
+            item.writer = writer
+            item.clock = clock
             item.mut_self = mut_self
             crate.fns.setdefault((fname, impl_canon(fname, impl) if impl else None, name), item)
             i = k + 1
@@ -759,6 +893,9 @@ def load_crate(repo):
             scan_items(crate, fname, src, toks, 0, len(toks), None)
         except Exception as ex:    # an unreadable file: its functions are simply "not found"
             crate.broken[fname] = "%s: %s" % (type(ex).__name__, ex)
+    for name in IMPLICIT_DISCR_ENUMS:
+        if name in crate.plain_enums and name not in crate.enums and crate.plain_enums[name]:
+            crate.enums[name] = dict((v, i) for i, v in enumerate(crate.plain_enums[name]))
     return crate
 
 # ----------------------------------------------------------------------------------------------
@@ -977,7 +1114,7 @@ class Parser(object):
                 stmts.append(("const", name, ty, init, line))
                 continue
             if t.kind == "id" and t.text in ("fn", "struct", "enum", "impl", "use", "static", "type", "trait", "mod",
-                                            "for", "loop", "break", "continue", "pub"):
+                                            "loop", "break", "continue", "pub"):
                 self.fail("`%s` inside a function body" % t.text)
             if t.kind == "id" and t.text == "const":
                 self.fail("const item")
@@ -1040,7 +1177,14 @@ class Parser(object):
                 lhs = ("binary", t.text, lhs, rhs)
                 continue
             if t.kind == "p" and t.text in ("..", "..="):
-                self.fail("range expression")
+                if min_prec > 0:
+                    break           # a range binds weaker than every operator: the outermost caller takes it
+                self.i += 1
+                hi = None
+                if not (self.at("]") or self.at(")") or self.at(",") or self.at(";") or self.at("}")):
+                    hi = self.parse_expr(1)
+                lhs = ("range", lhs, hi, t.text == "..=")
+                continue
             break
         return lhs
 
@@ -1059,6 +1203,9 @@ class Parser(object):
         if t.kind == "p" and t.text == "&&":
             self.i += 1
             return self.parse_unary()
+        if t.kind == "p" and t.text in ("..", "..="):      # `..hi` (only as an index)
+            self.i += 1
+            return ("range", None, self.parse_expr(1), t.text == "..=")
         return self.parse_postfix(self.parse_primary())
 
     def parse_args(self):
@@ -1110,7 +1257,10 @@ class Parser(object):
         if t.kind == "float":
             self.i += 1
             return ("float", t.text)
-        if t.kind in ("str", "char"):
+        if t.kind == "str":
+            self.i += 1
+            return ("str", byte_string(t.text), t.text.startswith("b"))
+        if t.kind == "char":
             self.fail("%s literal" % t.kind)
         if t.kind == "p" and t.text == "(":
             self.i += 1
@@ -1132,7 +1282,12 @@ class Parser(object):
             while not self.at("]"):
                 es.append(self.parse_expr(0))
                 if self.at(";"):
-                    self.fail("array repeat expression")
+                    if len(es) != 1:
+                        self.fail("array repeat expression")
+                    self.i += 1
+                    count = self.parse_expr(0)
+                    self.expect("]")
+                    return ("repeat", es[0], count)
                 if not self.eat(","):
                     break
             self.expect("]")
@@ -1140,7 +1295,22 @@ class Parser(object):
         if t.kind == "p" and t.text == "{":
             return self.parse_block()
         if t.kind == "p" and t.text in ("|", "||"):
-            self.fail("closure")
+            # closure `|a, &b| body` (only as an argument of the iterator idioms)
+            self.i += 1
+            params = []
+            if t.text == "|":
+                while not self.at("|"):
+                    while self.eat("&") or self.eat("&&"):
+                        pass
+                    params.append(self.parse_pattern1())
+                    if self.eat(":"):
+                        self.parse_type()
+                    if not self.eat(","):
+                        break
+                self.expect("|")
+            if self.at("->"):
+                self.fail("closure with a return type")
+            return ("closure", params, self.parse_expr(0))
         if t.kind != "id":
             self.fail("expression")
         if t.text == "unsafe":
@@ -1198,7 +1368,13 @@ class Parser(object):
                 self.fail("while let")
             cond = self.parse_expr(0)
             return ("while", cond, self.parse_block())
-        if t.text in ("for", "loop", "break", "continue", "move", "async", "let"):
+        if t.text == "for":
+            self.i += 1
+            pat = self.parse_pattern()
+            self.expect("in")
+            src = self.parse_expr(0)
+            return ("for", pat, src, self.parse_block())
+        if t.text in ("loop", "break", "continue", "move", "async", "let"):
             self.fail("`%s`" % t.text)
         # path
         self.i += 1
@@ -1212,9 +1388,23 @@ class Parser(object):
         if self.at("!"):
             # macro invocation: swallow the argument tokens
             self.i += 1
+            inner = []
             if self.peek().text in ("(", "[", "{"):
-                self.i = match_close(self.toks, self.i) + 1
-            return ("macro", path[-1])
+                close = match_close(self.toks, self.i)
+                inner = self.toks[self.i + 1:close]
+                self.i = close + 1
+            if path[-1] == "matches" and inner:
+                # `matches!(e, PAT [if guard])`  =  `match e { PAT [if guard] => true, _ => false }`
+                sub = Parser(list(inner))
+                scrut = sub.parse_expr(0)
+                sub.expect(",")
+                pat = sub.parse_pattern()
+                guard = sub.parse_expr(0) if sub.eat("if") else None
+                sub.eat(",")
+                if sub.i != len(sub.toks):
+                    sub.fail("trailing tokens in matches!")
+                return ("match", scrut, [(pat, guard, ("bool", True)), (("pwild",), None, ("bool", False))])
+            return ("macro", path[-1], inner)
         if self.at("{") and path[-1] in STRUCT_MAP:
             # struct literal of a mapped struct: `Name { f: e, g, ..base }`
             self.i += 1
@@ -1280,7 +1470,7 @@ def parse_type_toks(toks):
 # Arithmetic nodes may carry one extra trailing component (the Rust type / divisor / table length) that the printer
 # ignores and the safety-predicate generator reads.
 
-LEAN_PREC = {"→": 25, "*": 70, "/": 70, "%": 70, "+": 65, "-": 65, "=": 50, "≠": 50, "<": 50, "≤": 50, ">": 50, "≥": 50,
+LEAN_PREC = {"→": 25, "*": 70, "/": 70, "%": 70, "+": 65, "-": 65, "++": 65, "=": 50, "≠": 50, "<": 50, "≤": 50, ">": 50, "≥": 50,
              "∧": 35, "∨": 30, "&&": 35, "||": 30}
 RIGHT_ASSOC = ("∧", "∨")
 WIDTH = 110
@@ -1343,6 +1533,12 @@ def flat(node):
     if k == "inl":      # an inlined helper: (fun params => body) args
         lam = "(fun %s => %s)" % (" ".join("(%s : %s)" % (n, t) for n, t in node[1]), flat(node[2])[0])
         return lam + "".join(" " + wrap(a, 100) for a in node[3]), 90
+    if k == "lamT":     # ('lamT', [(name, lean type)], body): a typed lambda (closures, loop bodies)
+        return "fun %s => %s" % (" ".join("(%s : %s)" % (n, t) for n, t in node[1]), flat(node[2])[0]), 0
+    if k == "assert":   # ('assert', cond, body, comment): a `debug_assert!` - invisible in the value, a conjunct of `_safe`
+        return flat(node[2])
+    if k == "forallmem":   # ('forallmem', name, list, body): only in the safety predicates
+        return "∀ (%s : Nat), %s ∈ %s → %s" % (node[1], node[1], wrap(node[2], 100), wrap(node[3], 25)), 0
     raise AssertionError(node)
 
 
@@ -1359,7 +1555,7 @@ def wrap(node, minprec):
 def has_binder(node):
     """Does the term contain a `let`/`match` (then it is laid out over several lines)?"""
     k = node[0]
-    if k in ("let", "match", "com"):
+    if k in ("let", "match", "com", "assert"):
         return True
     if k == "inl":
         return False
@@ -1381,6 +1577,19 @@ def layout(node, ind):
     k = node[0]
     if k == "com":
         return [pad + "-- " + node[1]] + layout(node[2], ind)
+    if k == "assert":
+        return ([pad + "-- " + node[3]] if node[3] else []) + layout(node[2], ind)
+    if k == "app" and any(a[0] == "lamT" and has_binder(a[2]) for a in node[2]):
+        # an application whose arguments are multi-line lambdas (loops, folds): one argument per line
+        out = [pad + node[1]]
+        for a in node[2]:
+            if a[0] == "lamT":
+                out.append("%s  (fun %s =>" % (pad, " ".join("(%s : %s)" % (n, t) for n, t in a[1])))
+                out.extend(layout(a[2], ind + 6))
+                out[-1] += ")"
+            else:
+                out.append(pad + "  " + wrap(a, 100))
+        return out
     if k == "let":
         out = []
         if node[4]:
@@ -1527,7 +1736,18 @@ def lean_ident(name):
     return "«%s»" % name if name in LEAN_RESERVED else name
 
 
+BYTES = ("bytes",)       # `&[u8]`, `[u8; N]`, `&str`: the model's `Bytes = List Nat`
+ITER = ("iter",)         # `slice::Iter<u8>` and its adaptors: the list of the items still to come
+WRITER = ("writer",)     # a `W: fmt::Write` parameter: the bytes written so far
+CLOCK = ("clock",)       # a `T: FnMut() -> chrono::NaiveDateTime` parameter, and what it returns: the model's `Clock`
+CLOCK_FIELDS = {"year": "i32", "month": "u32", "day": "u32", "hour": "u32", "minute": "u32", "second": "u32"}
+
+
 def lean_type(t):
+    if t in (BYTES, ITER, WRITER):
+        return "List Nat"
+    if t == CLOCK:
+        return "SqlDt.Clock"
     if is_intlike(t) or (isinstance(t, tuple) and t[0] in ("nt", "enum")):
         return "Int"
     if t == "bool":
@@ -1563,6 +1783,10 @@ def type_str(t):
         return "(" + ", ".join(type_str(x) for x in t[1]) + ")"
     if t[0] in ("nt", "enum", "struct", "boolenum", "fnptr"):
         return t[1]
+    if t in (BYTES, ITER, WRITER):
+        return {"bytes": "&[u8]", "iter": "Iter<u8>", "writer": "impl Write"}[t[0]]
+    if t == CLOCK:
+        return "Clock"
     if t[0] in ("result", "option"):
         return "%s<%s>" % (t[0].capitalize(), type_str(t[1]) if t[1] is not None else "_")
     if t[0] == "array":
@@ -1614,12 +1838,20 @@ class World(object):
         if k in ("result", "option"):
             return (k, self.resolve(pt[1], fname, self_ty))
         if k == "array":      # ('array', element type, length or None)
+            if pt[1] == "u8":
+                return BYTES      # byte slices and byte arrays are lists of `Nat`, like the model's text
             return (k, self.resolve(pt[1], fname, self_ty), self.array_size(pt[2] if len(pt) > 2 else None))
         if k == "named":
             name = pt[1]
+            if name == "str":
+                return BYTES
+            if fname == "<whitelist>" and name == "Clock":
+                return CLOCK
             if name in ("Self", "Output"):      # `Self::Output` of the operator traits
                 if self_ty is None:
                     raise Unsupported("`Self` outside an impl")
+                if self_ty.replace(" ", "") == "[u8]":
+                    return BYTES
                 name = self_ty
             else:
                 name = FILE_TYPE_ALIASES.get(fname, {}).get(name, name)
@@ -1693,6 +1925,8 @@ class World(object):
 
 def self_type(name):
     """The translator type of `self` in an impl of `name`."""
+    if name is not None and name.replace(" ", "") == "[u8]":
+        return BYTES
     return ("struct", name) if name in STRUCT_MAP else ("nt", name)
 
 
@@ -1745,6 +1979,7 @@ def join_types(a, b, what):
 
 
 CMP_OPS = {"==": "=", "!=": "≠", "<": "<", "<=": "≤", ">": ">", ">=": "≥"}
+ERR_WITH_MESSAGE = ("ParseError", "FormatError", "InvalidFormat")     # `Error` variants with a `String` payload
 ACCESSORS = ("usecs", "days", "months")
 
 
@@ -1766,6 +2001,8 @@ def assigned_vars(node, out):
             out.add(node[2][1][0])
         if node and node[0] == "assign" and node[2][0] == "field" and node[2][1][0] == "path" and len(node[2][1][1]) == 1:
             out.add(node[2][1][1][0])      # `v.f = e` assigns `v`
+        if node and node[0] == "assign" and node[2][0] == "index" and node[2][1][0] == "path" and len(node[2][1][1]) == 1:
+            out.add(node[2][1][1][0])      # `v[i] = e` assigns `v`
         for x in node:
             assigned_vars(x, out)
     elif isinstance(node, list):
@@ -1843,6 +2080,8 @@ F64_CONSTS = {"INFINITY": ("app", "F64.inf", [A("false")]), "NEG_INFINITY": ("ap
               "EPSILON": ("app", "F64.ofBits", [A("0x3cb0000000000000")]),
               "MIN_POSITIVE": ("app", "F64.ofBits", [A("0x0010000000000000")])}
 F64_TO_INT = {"i64": "F64.toI64", "i32": "F64.toI32", "u32": "F64.toU32"}
+U8_PREDICATES = {"is_ascii_digit": "isAsciiDigit", "is_ascii_whitespace": "isAsciiWhitespace",
+                 "is_ascii_uppercase": "isAsciiUppercase", "is_ascii_lowercase": "isAsciiLowercase"}
 
 
 def eval_prop(node):
@@ -1880,6 +2119,10 @@ class Translator(object):
         self.assign_ok = 0
         self.unrolled = 0
         self.ret_type = None
+        self.notes = []                   # remarks for the status file (loop fuel, dropped sink parameter, contracts)
+        self.loop_ret = 0                 # > 0 inside the body of a search loop: `return e` is `some e`, falling through `none`
+        self.contracts = False            # phase 6: `debug_assert!(c)` becomes a conjunct of the safety predicate
+        self.writer_var = None            # the `W: fmt::Write` parameter of the function being translated
 
     # ---- small helpers
     def src_comment(self, line):
@@ -1961,6 +2204,19 @@ class Translator(object):
             return self.is_const_like(e[2], env) and self.is_const_like(e[3], env)
         return False
 
+    def positive_table_entry(self, e):
+        """`TABLE[i]` / `TABLE[i] as T` for a file-level table of positive integer literals (a divisor that `rdiv`/`rrem`
+        model; the index bound and `≠ 0` are obligations of `_safe`)."""
+        while e[0] in ("cast", "ref"):
+            e = e[1]
+        if not (e[0] == "index" and e[1][0] == "path" and len(e[1][1]) == 1):
+            return False
+        c = self.w.crate.consts.get((None, e[1][1][0]))
+        if c is None:
+            return False
+        toks = [t for t in c.init if t.text not in ("[", "]", ",")]
+        return bool(toks) and all(t.kind == "int" and parse_int(t.text)[0] > 0 for t in toks)
+
     def unify_int(self, lt, rt, what):
         if lt == "lit":
             return rt
@@ -2031,6 +2287,10 @@ class Translator(object):
                 pass
             elif lt == rt and isinstance(lt, tuple) and lt[0] == "nt":
                 pass        # derived PartialEq/PartialOrd of a one-field struct = comparison of the field
+            elif e[1] in ("==", "!=") and all(isinstance(x, tuple) and x[0] == "option" and (x[1] is None or is_intlike(x[1]))
+                                              for x in (lt, rt)) and (lt[1] is None or rt[1] is None or
+                                                                      self.unify_int(lt[1], rt[1], "comparison")):
+                pass        # `Option<integer>` equality (`s.first() == Some(&c)`)
             elif "f64" in (lt, rt):
                 raise Unsupported("float comparison `%s` (the model's soft-float has only `== 0.0`)" % e[1])
             else:
@@ -2040,6 +2300,24 @@ class Translator(object):
             return ("not", self.tr_prop(e[2], env))
         if k == "bool":
             return A("True" if e[1] else "False")
+        if k == "mcall" and e[2] == "contains" and len(e[3]) == 1 and e[1][0] == "range":
+            # `(lo..=hi).contains(&x)` / `(lo..hi).contains(&x)`
+            lo, hi, incl = e[1][1], e[1][2], e[1][3]
+            xn, xt = self.tr_expr(e[3][0], env, None)
+            if not is_intlike(xt):
+                raise Unsupported("`.contains()` of a %s" % type_str(xt))
+            parts = []
+            for bound, op in ((lo, "lo"), (hi, "hi")):
+                if bound is None:
+                    continue
+                bn, bt = self.tr_expr(bound, env, xt if is_int(xt) else None)
+                if not is_intlike(bt):
+                    raise Unsupported("range bound of type %s" % type_str(bt))
+                self.unify_int(xt, bt, "`.contains()`")
+                parts.append(("bin", "≤", bn, xn) if op == "lo" else ("bin", "≤" if incl else "<", xn, bn))
+            if not parts:
+                return A("True")
+            return parts[0] if len(parts) == 1 else ("bin", "∧", parts[0], parts[1])
         if k == "mcall" and e[2] in ("is_negative", "is_positive") and not e[3]:
             n, t = self.tr_expr(e[1], env, None)
             if not is_int(t) or not is_signed(t):
@@ -2055,7 +2333,8 @@ class Translator(object):
     def is_prop_form(self, e):
         return (e[0] == "binary" and (e[1] in CMP_OPS or e[1] in ("&&", "||"))) or \
                (e[0] == "unary" and e[1] == "!") or \
-               (e[0] == "mcall" and e[2] in ("is_negative", "is_positive"))
+               (e[0] == "mcall" and e[2] in ("is_negative", "is_positive")) or \
+               (e[0] == "mcall" and e[2] == "contains" and e[1][0] == "range")
 
     # ---- expressions
     def tr_expr(self, e, env, want):
@@ -2072,6 +2351,20 @@ class Translator(object):
             return float_literal(e[1]), "f64"
         if k == "ref":
             return self.tr_expr(e[1], env, want)
+        if k == "str":
+            if not e[2]:
+                raise Unsupported("string literal (only byte strings `b\"..\"` and error messages are supported)")
+            return ("list", [("num", b) for b in e[1]]), BYTES
+        if k == "repeat":
+            cnt = self.static_value(e[2])
+            en, et = self.tr_expr(e[1], env, "u8")
+            if cnt is None or cnt < 0 or et not in ("u8", "lit"):
+                raise Unsupported("array repeat expression other than `[byte; N]`")
+            return ("app", "List.replicate", [("num", cnt), en if en[0] == "num" else ("app", "Int.toNat", [en])]), BYTES
+        if k == "range":
+            raise Unsupported("range expression (only as a slice index and in `(a..=b).contains(&x)`)")
+        if k == "closure":
+            raise Unsupported("closure (only as an argument of take_while / position / all / any / fold)")
         if k == "structlit":
             sty = self.resolve(("named", e[1]))
             ftypes = self.w.struct_fields(e[1])
@@ -2141,6 +2434,8 @@ class Translator(object):
             raise Unsupported("field `.%s` of %s" % (e[2], type_str(t)))
         if k == "index":
             n, t = self.tr_expr(e[1], env, None)
+            if t == BYTES:
+                return self.bytes_index(n, e[2], env)
             if not (isinstance(t, tuple) and t[0] == "array"):
                 raise Unsupported("indexing a %s" % type_str(t))
             ix, it = self.tr_expr(e[2], env, "usize")
@@ -2157,6 +2452,8 @@ class Translator(object):
                 return ("app", "idxD", [n, ix, ("num", 0)], ("idx", length)), (el if el != "lit" else "i32")
             if isinstance(el, tuple) and el[0] == "array":
                 return ("app", "idxD", [n, ix, A("[]")], ("idx", length)), el
+            if el == "f64":
+                return ("app", "idxD", [n, ix, ("app", "F64.ofInt", [("num", 0)])], ("idx", length)), el
             if isinstance(el, tuple) and el[0] == "tuple" and all(
                     is_intlike(c) or (isinstance(c, tuple) and c[0] == "fnptr") for c in el[1]):
                 dflt = ("tuple", [A("false") if isinstance(c, tuple) else ("num", 0) for c in el[1]])
@@ -2216,12 +2513,74 @@ class Translator(object):
             raise Unsupported("macro `%s!`" % e[1])
         raise Unsupported("expression kind %s" % k)
 
+    def usize_arg(self, e, env, what):
+        n, t = self.tr_expr(e, env, "usize")
+        if t not in ("usize", "lit", "infer"):
+            raise Unsupported("%s of type %s" % (what, type_str(t)))
+        return n
+
+    def bytes_index(self, n, ix, env):
+        """`s[i]`, `s[lo..]`, `s[..hi]`, `s[lo..hi]` on a byte slice (bounds are obligations of `_safe`)."""
+        if ix[0] == "range":
+            lo, hi, incl = ix[1], ix[2], ix[3]
+            if incl:
+                raise Unsupported("inclusive range as a slice index")
+            if lo is None and hi is None:
+                return n, BYTES
+            if hi is None:
+                return ("app", "bFrom", [n, self.usize_arg(lo, env, "slice bound")], ("bfrom",)), BYTES
+            if lo is None:
+                return ("app", "bTo", [n, self.usize_arg(hi, env, "slice bound")], ("bto",)), BYTES
+            return ("app", "bSlice", [n, self.usize_arg(lo, env, "slice bound"), self.usize_arg(hi, env, "slice bound")],
+                    ("bslice",)), BYTES
+        return ("app", "bGet", [n, self.usize_arg(ix, env, "index")], ("bidx",)), "u8"
+
+    def closure_lambda(self, cl, env, ptypes, want):
+        """A closure argument of an iterator idiom as a typed Lean lambda.  `ptypes`: Rust types of the parameters
+        ('u8' parameters are items of the byte list: bound as `Nat`, used as `Int.ofNat x`).  Returns (lambda, type)."""
+        if cl[0] != "closure":
+            raise Unsupported("a function value where a closure literal is expected")
+        if len(cl[1]) != len(ptypes):
+            raise Unsupported("closure with %d parameters (expected %d)" % (len(cl[1]), len(ptypes)))
+        env2 = dict(env)
+        for key in ("$k", "$l"):
+            env2[key] = dict(env.get(key, {}))
+        nat = set(env.get("$b", ()))
+        binders = []
+        for pat, pt in zip(cl[1], ptypes):
+            if pat[0] == "pwild":
+                binders.append((self.fresh("_x"), "Nat" if pt == "u8" else lean_type(pt)))
+                continue
+            if pat[0] != "pvar":
+                raise Unsupported("closure parameter pattern kind %s" % pat[0])
+            name = pat[1]
+            env2[name] = pt
+            for key in ("$k", "$l"):
+                env2[key].pop(name, None)
+            if pt == "u8":
+                nat.add(name)
+                binders.append((lean_ident(name), "Nat"))
+            else:
+                nat.discard(name)
+                binders.append((lean_ident(name), lean_type(pt if pt != "infer" else "i32")))
+        env2["$b"] = nat
+        saved, self.try_binds = self.try_binds, None
+        saved_ok, self.assign_ok = self.assign_ok, 0
+        try:
+            bn, bt = self.tr_expr(cl[2], env2, want)
+        finally:
+            self.try_binds = saved
+            self.assign_ok = saved_ok
+        return ("lamT", binders, bn), bt
+
     def tr_path(self, segs, env, want):
         w = self.w
         if len(segs) > 2:
             segs = segs[-2:]
         if len(segs) == 1:
             name = segs[0]
+            if name in env and name in env.get("$b", ()):       # an item of a byte list, bound as a `Nat`
+                return ("app", "Int.ofNat", [A(lean_ident(name))]), env[name]
             if name in env:
                 if name in env.get("$k", {}):      # constant propagation (needed to unroll counted loops)
                     return ("num", env["$k"][name]), env[name]
@@ -2333,7 +2692,7 @@ class Translator(object):
                 sv = rn[1]          # a local constant (propagated)
             if sv == 0:
                 raise Unsupported("division by zero")
-            if sv is None and not self.is_const_like(e[3], env):
+            if sv is None and not self.is_const_like(e[3], env) and not self.positive_table_entry(e[3]):
                 raise Unsupported("division by a non-constant (`rdiv`/`rrem` model constant divisors only)")
             if is_signed(t):
                 return ("app", "rdiv" if op == "/" else "rrem", [ln, rn], ("div", t, sv)), t
@@ -2362,6 +2721,12 @@ class Translator(object):
 
     def tr_call(self, segs, arg_exprs, env, want):
         w = self.w
+        if segs[-1] in ("from_utf8_unchecked", "from_utf8") and len(arg_exprs) == 1 and (len(segs) == 1 or segs[-2] == "str"):
+            # text is bytes here and in the model: `from_utf8_unchecked` is the identity
+            n, t = self.tr_expr(arg_exprs[0], env, BYTES)
+            if t != BYTES or segs[-1] != "from_utf8_unchecked":
+                raise Unsupported("`%s` of %s" % (segs[-1], type_str(t)))
+            return n, BYTES
         if len(segs) > 2:
             segs = segs[-2:]
         if len(segs) == 1:
@@ -2378,6 +2743,17 @@ class Translator(object):
                 a = arg_exprs[0] if len(arg_exprs) == 1 else None
                 if a is not None and a[0] == "path" and len(a[1]) >= 2 and a[1][-2] == "Error":
                     return ("app", "Except.error", [A("Err." + a[1][-1])]), ("result", None)
+                if a is not None and a[0] == "call" and len(a[1]) >= 2 and a[1][-2] == "Error" and len(a[2]) == 1 \
+                        and a[1][-1] in ERR_WITH_MESSAGE:
+                    # `Err(Error::ParseError("message".try_to_string()?))`: the model's errors carry no payload, and the
+                    # fallible allocation of the message (`?` -> TryReserveError) cannot fail in the model
+                    m = a[2][0]
+                    if m[0] == "try":
+                        m = m[1]
+                    if m[0] == "mcall" and m[2] in ("try_to_string", "to_string", "into", "to_owned") and not m[3]:
+                        m = m[1]
+                    if m[0] == "str" and not m[2]:
+                        return ("app", "Except.error", [A("Err." + a[1][-1])]), ("result", None)
                 raise Unsupported("`Err(..)` with a non-literal error")
             if name == "Some":
                 inner = want[1] if isinstance(want, tuple) and want[0] == "option" else None
@@ -2392,6 +2768,8 @@ class Translator(object):
                 if not types_compatible(t, inner):
                     raise Unsupported("constructor %s applied to %s" % (name, type_str(t)))
                 return n, ("nt", tn)
+            if name in env and env[name] == CLOCK and not arg_exprs:
+                return A(lean_ident(name)), CLOCK          # `get_now()`: the reading
             if name in env and isinstance(env[name], tuple) and env[name][0] == "fnptr":
                 # `f(args)` with `f` one of the two known functions: the call of whichever it is
                 vals = FNPTR_MAP[env[name][1]]
@@ -2415,6 +2793,14 @@ class Translator(object):
             return self.cast(n, s, head, None)
         tn = self.type_name(head)
         if tn is None:
+            # `Trait::method(receiver, args)` with a single impl of that trait for byte slices: inlined
+            cands = [it for (f, impl, n), it in w.crate.fns.items()
+                     if n == name and impl is not None and impl.startswith(head + " for ")]
+            if len(cands) == 1 and impl_self_type(cands[0].file, cands[0].impl).replace(" ", "") == "[u8]" and arg_exprs:
+                recv = self.tr_expr(arg_exprs[0], env, BYTES)
+                if recv[1] != BYTES:
+                    raise Unsupported("`%s::%s` on %s" % (head, name, type_str(recv[1])))
+                return self.inline(cands[0], recv, arg_exprs[1:], env)
             raise Unsupported("call of `%s::%s`" % (head, name))
         if tn in w.crate.enums:
             if name == "from" and len(arg_exprs) == 1 and tn in ENUM_FROM_INT_IDENTITY:
@@ -2485,6 +2871,75 @@ class Translator(object):
         w = self.w
         if isinstance(t, tuple) and t[0] in ("nt", "struct"):
             return self.assoc_call(t[1], name, (n, t), arg_exprs, env)
+        if t == CLOCK:
+            if not arg_exprs and name in CLOCK_FIELDS:
+                return ("fld", n, name), CLOCK_FIELDS[name]
+            raise Unsupported("method `.%s()` on a clock reading" % name)
+        if t == BYTES:
+            if not arg_exprs:
+                if name == "first":
+                    return ("app", "bFirst", [n]), ("option", "u8")
+                if name == "is_empty":
+                    return ("app", "List.isEmpty", [n]), "bool"
+                if name == "len":
+                    return ("app", "bLen", [n]), "usize"
+                if name == "iter":
+                    return n, ITER
+                if name in ("as_bytes", "as_ref", "as_str"):
+                    return n, BYTES
+            if name == "eq_ignore_ascii_case" and len(arg_exprs) == 1:
+                on, ot = self.tr_expr(arg_exprs[0], env, BYTES)
+                if ot != BYTES:
+                    raise Unsupported("`.eq_ignore_ascii_case(%s)`" % type_str(ot))
+                return ("app", "bEqIgnoreCase", [n, on]), "bool"
+            raise Unsupported("slice method `.%s()`" % name)
+        if t == ITER:
+            if name in ("copied", "cloned", "by_ref") and not arg_exprs:
+                return n, ITER
+            if name in ("take", "skip") and len(arg_exprs) == 1:
+                k_ = ("app", "Int.toNat", [self.usize_arg(arg_exprs[0], env, "argument of `.%s()`" % name)])
+                return ("app", "List.take" if name == "take" else "List.drop", [k_, n]), ITER
+            if name in ("take_while", "skip_while") and len(arg_exprs) == 1:
+                lam, bt = self.closure_lambda(arg_exprs[0], env, ["u8"], "bool")
+                if bt != "bool":
+                    raise Unsupported("predicate closure of type %s" % type_str(bt))
+                return ("app", "List.takeWhile" if name == "take_while" else "List.dropWhile", [lam, n], ("iterpred", 0, 1)), ITER
+            if name == "count" and not arg_exprs:
+                return ("app", "bLen", [n]), "usize"
+            if name == "position" and len(arg_exprs) == 1:
+                lam, bt = self.closure_lambda(arg_exprs[0], env, ["u8"], "bool")
+                if bt != "bool":
+                    raise Unsupported("predicate closure of type %s" % type_str(bt))
+                return ("app", "bPosition", [lam, n], ("iterpred", 0, 1)), ("option", "usize")
+            if name in ("all", "any") and len(arg_exprs) == 1:
+                lam, bt = self.closure_lambda(arg_exprs[0], env, ["u8"], "bool")
+                if bt != "bool":
+                    raise Unsupported("predicate closure of type %s" % type_str(bt))
+                return ("app", "List.all" if name == "all" else "List.any", [n, lam], ("iterpred", 1, 0)), "bool"
+            if name == "fold" and len(arg_exprs) == 2:
+                init_n, init_t = self.tr_expr(arg_exprs[0], env, None)
+                if not is_intlike(init_t):
+                    raise Unsupported("fold with an accumulator of type %s" % type_str(init_t))
+                acc_t = init_t if is_int(init_t) else "infer"
+                lam, bt = self.closure_lambda(arg_exprs[1], env, [acc_t, "u8"], acc_t if is_int(acc_t) else None)
+                if acc_t == "infer" and is_int(bt):
+                    # the accumulator's integer type is the one the closure body produces
+                    acc_t = bt
+                    init_n, init_t = self.tr_expr(arg_exprs[0], env, acc_t)
+                    lam, bt = self.closure_lambda(arg_exprs[1], env, [acc_t, "u8"], acc_t)
+                if not is_int(acc_t) or self.unify_int(acc_t, bt, "fold") != acc_t:
+                    raise Unsupported("fold whose accumulator type cannot be determined")
+                return ("app", "List.foldl", [lam, init_n, n], ("fold",)), acc_t
+            raise Unsupported("iterator method `.%s()`" % name)
+        if t == "u8" and not arg_exprs and name in U8_PREDICATES:
+            return ("app", U8_PREDICATES[name], [n]), "bool"
+        if t == "u8" and name == "eq_ignore_ascii_case" and len(arg_exprs) == 1:
+            on, ot = self.tr_expr(arg_exprs[0], env, "u8")
+            if ot not in ("u8", "lit"):
+                raise Unsupported("`.eq_ignore_ascii_case(%s)`" % type_str(ot))
+            return ("app", "decide", [("bin", "=", ("app", "toAsciiLowercase", [n]), ("app", "toAsciiLowercase", [on]))]), "bool"
+        if t == "u8" and name in ("to_ascii_lowercase", "to_ascii_uppercase") and not arg_exprs:
+            return ("app", "toAsciiLowercase" if name.endswith("lowercase") else "toAsciiUppercase", [n]), "u8"
         if is_intlike(t):
             if t == "infer":
                 raise Unsupported("method `.%s()` on a variable whose integer type is not annotated" % name)
@@ -2593,7 +3048,15 @@ class Translator(object):
                 raise Unsupported("`return` in a `&mut self` method")
             node, t = self.seq(self.strip_unit_tail(items), env, "vars", ["self"], None)
             return node, t
-        node, t = self.seq(items, env, "tail", None, ret)
+        if self.writer_var is not None:
+            self.notes.append("the `fmt::Write` parameter `%s` is dropped: the translation returns the bytes written "
+                              "(a failing sink is not modelled)" % self.writer_var)
+            env[self.writer_var] = WRITER
+            node, t = self.seq(items, env, "tail", None, ret)
+            node = mk_let("%s : List Nat" % lean_ident(self.writer_var), ("list", []), node,
+                          "the bytes written to the `fmt::Write` sink `%s`" % self.writer_var)
+        else:
+            node, t = self.seq(items, env, "tail", None, ret)
         if t == "never":
             t = ret
         if not types_compatible(t, ret):
@@ -2636,6 +3099,8 @@ class Translator(object):
                 vt = "infer"
             env = dict(env)
             env[pat[1]] = vt
+            if pat[1] in env.get("$b", ()):
+                env["$b"] = set(env["$b"]) - {pat[1]}
             # what is known about the new binding at translation time (constant, literal list)
             for key, hit in (("$k", val[1] if val[0] == "num" and is_intlike(vt) else None),
                              ("$l", val[1] if val[0] == "list" else None)):
@@ -2687,6 +3152,8 @@ class Translator(object):
         if not items:
             if mode == "vars":
                 return self.vars_value(rvars, env)
+            if self.loop_ret and mode == "tail":
+                return A("none"), ("option", None)
             return ("tuple", []), "unit"
         st, rest = items[0], items[1:]
         kind = st[0]
@@ -2718,6 +3185,11 @@ class Translator(object):
                     node, t = self.bind_pattern(pat, val, vt, env, comment,
                                                 lambda e2: self.seq(rest, e2, mode, rvars, want))
                     return self.wrap_tries(binds, node, t)
+            if init[0] in ("if", "block", "match") and mode == "tail" and contains_kind(init, ("return",)):
+                # `let pat = match e { A => v, B => return r };`: the `let` and the rest of the function move into
+                # every branch that yields a value
+                pushed = self.push_let(init, pat, ty, line, rest, env)
+                return self.seq([("expr", pushed, line)], env, mode, rvars, want)
             annotated = self.resolve(ty) if ty is not None else None
             (val, vt), binds = self.with_tries(mode, lambda: self.tr_expr(init, env, annotated))
             if annotated is not None:
@@ -2757,6 +3229,21 @@ class Translator(object):
                 node, bt = self.bind_pattern(("pvar", name), newv, sty, env, comment,
                                              lambda e2: self.seq(rest, e2, mode, rvars, want))
                 return self.wrap_tries(binds, node, bt)
+            if lhs[0] == "index" and lhs[1][0] == "path" and len(lhs[1][1]) == 1 and env.get(lhs[1][1][0]) == BYTES \
+                    and lhs[2][0] != "range":
+                # `buf[i] = e`  =  `buf = buf with element i replaced`
+                name = lhs[1][1][0]
+                src = rhs if op == "=" else ("binary", op[:-1], lhs, rhs)
+                def both():
+                    ix = self.usize_arg(lhs[2], env, "index")
+                    return ix, self.tr_expr(src, env, "u8")
+                (ix, (val, vt)), binds = self.with_tries(mode, both)
+                if vt not in ("u8", "lit"):
+                    raise Unsupported("line %d: assigning %s to an element of a byte array" % (line, type_str(vt)))
+                newv = ("app", "bSet", [A(lean_ident(name)), ix, val], ("bidx",))
+                node, bt = self.bind_pattern(("pvar", name), newv, BYTES, env, comment,
+                                             lambda e2: self.seq(rest, e2, mode, rvars, want))
+                return self.wrap_tries(binds, node, bt)
             if not (lhs[0] == "path" and len(lhs[1]) == 1 and lhs[1][0] in env):
                 raise Unsupported("line %d: assignment to something that is not a local variable" % line)
             name = lhs[1][0]
@@ -2774,19 +3261,59 @@ class Translator(object):
                 if mode != "tail":
                     raise Unsupported("line %d: `return` inside a nested expression block" % line)
                 if e[1] is None:
+                    if self.loop_ret:
+                        raise Unsupported("line %d: `return;` inside a search loop" % line)
                     return ("tuple", []), "unit"
-                node, t = self.tail_value(e[1], env, want)
+                if self.loop_ret:
+                    depth, self.loop_ret = self.loop_ret, 0
+                    try:
+                        node, t = self.tail_value(e[1], env, want)
+                    finally:
+                        self.loop_ret = depth
+                    node, t = ("app", "some", [node]), ("option", t)
+                else:
+                    node, t = self.tail_value(e[1], env, want)
                 if comment:
                     node = ("com", comment, node)
                 return node, t
             if e[0] == "macro":
                 if e[1].startswith("debug_assert"):
+                    if self.top.contracts and e[1] == "debug_assert" and len(e) > 2 and e[2]:
+                        # ignored in the value (release build), recorded as a CONTRACT conjunct of `_safe`
+                        toks, depth, cut = e[2], 0, len(e[2])
+                        for q, x in enumerate(toks):
+                            if x.kind == "p" and x.text in ("(", "[", "{"):
+                                depth += 1
+                            elif x.kind == "p" and x.text in (")", "]", "}"):
+                                depth -= 1
+                            elif x.kind == "p" and x.text == "," and depth == 0:
+                                cut = q
+                                break
+                        cond = self.tr_prop(parse_expr_toks(toks[:cut]), env)
+                        self.top.notes.append("`debug_assert!` at line %d: ignored in the value, a CONTRACT conjunct of `_safe`" % line)
+                        node, t = self.seq(rest, env, mode, rvars, want)
+                        return ("assert", cond, node, comment), t
                     return self.seq(rest, env, mode, rvars, want)
                 raise Unsupported("line %d: macro `%s!`" % (line, e[1]))
+            if e[0] == "try" and e[1][0] == "mcall" and e[1][1][0] == "path" and len(e[1][1][1]) == 1 \
+                    and env.get(e[1][1][1][0]) == WRITER:
+                # `w.write_str(s)?;`: the bytes written so far grow by `s` (a failing sink is outside the translation)
+                wname = e[1][1][1][0]
+                if e[1][2] != "write_str" or len(e[1][3]) != 1 or mode != "tail":
+                    raise Unsupported("line %d: `%s.%s(..)` on a `fmt::Write` sink" % (line, wname, e[1][2]))
+                an, at = self.tr_expr(e[1][3][0], env, BYTES)
+                if at != BYTES:
+                    raise Unsupported("line %d: write_str of %s" % (line, type_str(at)))
+                return self.bind_pattern(("pvar", wname), ("bin", "++", A(lean_ident(wname)), an), WRITER, env, comment,
+                                         lambda e2: self.seq(rest, e2, mode, rvars, want))
             if e[0] == "try":
                 (val, vt), binds = self.with_tries(mode, lambda: self.tr_expr(e, env, None))
                 node, t = self.seq(rest, env, mode, rvars, want)
                 return self.wrap_tries(binds, node, t)
+            if e[0] == "for":
+                if mode != "tail" or self.loop_ret:
+                    raise Unsupported("line %d: `for` loop in a nested position" % line)
+                return self.search_loop(e, rest, env, want, comment, line)
             if e[0] == "while":
                 # a counted loop whose condition is decided at translation time is unrolled
                 self.top.unrolled += 1
@@ -2796,6 +3323,12 @@ class Translator(object):
                     raise Unsupported("line %d: nested loops" % line)
                 c = eval_prop(self.tr_prop(e[1], env))
                 if c is None:
+                    fuel = self.loop_fuel(e[1], e[2], env)
+                    if fuel is not None:
+                        self.top.unrolled -= 1
+                        self.top.notes.append("the `while` loop at line %d is translated with fuel %d (`loopN`); that the fuel "
+                                              "suffices is part of the `_safe` predicate (`loopSafe`)" % (line, fuel))
+                        return self.fuel_loop(e, fuel, rest, env, mode, rvars, want, comment)
                     raise Unsupported("line %d: loop condition is not decidable at translation time" % line)
                 if not c:
                     return self.seq(rest, env, mode, rvars, want)
@@ -2810,6 +3343,208 @@ class Translator(object):
                 return self.assigning_stmt(e, rest, env, mode, rvars, want, comment)
             raise Unsupported("line %d: expression statement of kind %s" % (line, e[0]))
         raise Unsupported("statement kind %s" % kind)
+
+    def search_loop(self, e, rest, env, want, comment, line):
+        """`for (i, x) in TABLE.iter().enumerate() { .. return r; .. }` over a table of strings, with no other effect than
+        the early `return`: `match forFirst (fun i x => body) 0 TABLE with | some r => r | none => rest`."""
+        _, pat, src, body = e
+        names = set()
+        assigned_vars(body, names)
+        if [v for v in env if v in names and not v.startswith("$")]:
+            raise Unsupported("line %d: a `for` loop that assigns outer variables" % line)
+        if contains_kind(body, ("while", "for")) or not contains_kind(body, ("return",)):
+            raise Unsupported("line %d: a `for` loop that is not a search with early `return`" % line)
+        enumerate_ = False
+        if src[0] == "mcall" and src[2] == "enumerate" and not src[3]:
+            enumerate_, src = True, src[1]
+        if src[0] == "mcall" and src[2] in ("iter", "into_iter") and not src[3]:
+            src = src[1]
+        xs, xt = self.tr_expr(src, env, None)
+        if not (isinstance(xt, tuple) and xt[0] == "array" and xt[1] == BYTES):
+            raise Unsupported("line %d: `for` over %s (only tables of strings)" % (line, type_str(xt)))
+        if enumerate_:
+            if not (pat[0] == "ptuple" and len(pat[1]) == 2):
+                raise Unsupported("line %d: pattern of an enumerating `for`" % line)
+            ipat, xpat = pat[1]
+        else:
+            ipat, xpat = ("pwild",), pat
+        env2 = dict(env)
+        for key in ("$k", "$l"):
+            env2[key] = dict(env.get(key, {}))
+        binders = []
+        for p_, ty, lt in ((ipat, "usize", "Int"), (xpat, BYTES, "List Nat")):
+            if p_[0] == "pvar":
+                env2[p_[1]] = ty
+                for key in ("$k", "$l"):
+                    env2[key].pop(p_[1], None)
+                if p_[1] in env2.get("$b", ()):
+                    env2["$b"] = set(env2["$b"]) - {p_[1]}
+                binders.append((lean_ident(p_[1]), lt))
+            elif p_[0] == "pwild":
+                binders.append((self.fresh("_x"), lt))
+            else:
+                raise Unsupported("line %d: pattern kind %s in a `for`" % (line, p_[0]))
+        self.loop_ret += 1
+        try:
+            bn, bt = self.seq(self.strip_unit_tail(self.block_items(body)), env2, "tail", None, want)
+        finally:
+            self.loop_ret -= 1
+        if not (isinstance(bt, tuple) and bt[0] == "option"):
+            raise Unsupported("line %d: the body of the `for` loop has a value" % line)
+        rn, rt = self.seq(rest, env, "tail", None, want)
+        if bt[1] is not None:
+            rt = join_types(rt, bt[1], "for")
+        r = self.fresh("r")
+        beta = "(β := %s)" % lean_type(rt)        # the payload type, explicit: the safety predicate has no expected type
+        loop = ("app", "forFirst " + beta, [("lamT", binders, bn), ("num", 0), xs], ("forfirst", beta))
+        return ("match", loop, [("some " + r, A(r)), ("none", rn)], comment), rt
+
+    def enum_arms_exhaustive(self, en, arms):
+        """Do the (unguarded, variant-only) arms of a `match` on enum `en` list every variant?"""
+        variants = self.w.crate.enums.get(en, {})
+        seen = set()
+        for pat, guard, _ in arms:
+            if guard is not None:
+                return False
+            for q in (pat[1] if pat[0] == "por" else [pat]):
+                if q[0] != "pctor" or q[2]:
+                    return False
+                try:
+                    n, t = self.tr_path(q[1], {}, None)
+                except Unsupported:
+                    return False
+                if t != ("enum", en) or n[0] != "num":
+                    return False
+                seen.add(n[1])
+        return bool(variants) and seen == set(variants.values())
+
+    def push_let(self, body, pat, ty, line, rest, env):
+        """The expression `body` (the initialiser of `let pat = body; rest`) with the `let` and the rest moved into
+        every branch that produces a value; branches that `return` stay as they are."""
+        if body[0] == "return":
+            return body
+        if not contains_kind(body, ("return",)):
+            stmts = [("let", pat, ty, body, line)] + [x for x in rest if x[0] != "tail"]
+            tails = [x[1] for x in rest if x[0] == "tail"]
+            return ("block", stmts, tails[0] if tails else None)
+        if body[0] == "block":
+            stmts, tail = body[1], body[2]
+            if tail is None:
+                if stmts and stmts[-1][0] == "expr" and stmts[-1][1][0] == "return":
+                    return body
+                raise Unsupported("line %d: a block without a value as the initialiser of a `let`" % line)
+            if contains_kind(stmts, ("return",)):
+                raise Unsupported("line %d: `return` in the middle of a block whose value is bound by `let`" % line)
+            self.check_leak(stmts, rest, env)
+            return ("block", stmts, self.push_let(tail, pat, ty, line, rest, env))
+        if body[0] == "if":
+            if body[3] is None or contains_kind(body[1], ("return",)):
+                raise Unsupported("line %d: `return` inside the condition of an initialiser" % line)
+            return ("if", body[1], self.push_let(body[2], pat, ty, line, rest, env),
+                    self.push_let(body[3], pat, ty, line, rest, env))
+        if body[0] == "match":
+            if contains_kind(body[1], ("return",)):
+                raise Unsupported("line %d: `return` inside the scrutinee of an initialiser" % line)
+            return ("match", body[1], [(p_, g_, self.push_let(b_, pat, ty, line, rest, env)) for p_, g_, b_ in body[2]])
+        raise Unsupported("line %d: `return` inside an expression" % line)
+
+    def loop_fuel(self, cond, body, env):
+        """Iteration bound of `while v >= K { ..; v /= D; .. }` (v unsigned, K >= 1, D >= 2): the number of base-D digits
+        of the type's maximum.  After that many divisions v is 0, so the condition is false: the bounded loop IS the
+        loop (and `loopSafe` additionally demands that the condition is false when the fuel is used up)."""
+        if cond[0] != "binary" or cond[1] not in (">=", ">", "<=", "<", "!="):
+            return None
+        l, r, op = cond[2], cond[3], cond[1]
+        if op in ("<=", "<"):
+            l, r, op = r, l, {"<=": ">=", "<": ">"}[op]
+        if not (l[0] == "path" and len(l[1]) == 1 and l[1][0] in env):
+            return None
+        v, k = l[1][0], self.static_value(r)
+        t = env[v]
+        if not is_int(t) or is_signed(t) or k is None or k < 0 or (op == ">=" and k < 1) or (op == "!=" and k != 0):
+            return None
+        divisors, others = [], 0
+        def scan(node, top):
+            nonlocal others
+            if isinstance(node, tuple):
+                if node and node[0] == "assign" and node[2] == ("path", [v]):
+                    d = None
+                    if top and node[1] == "/=":
+                        d = self.static_value(node[3])
+                    elif top and node[1] == "=" and node[3][0] == "binary" and node[3][1] == "/" and node[3][2] == ("path", [v]):
+                        d = self.static_value(node[3][3])
+                    if d is not None and d >= 2:
+                        divisors.append(d)
+                    else:
+                        others += 1
+                for x in node:
+                    scan(x, False)
+            elif isinstance(node, list):
+                for x in node:
+                    scan(x, False)
+        for st in self.block_items(body):
+            scan(st, True)
+        if len(divisors) != 1 or others:
+            return None
+        n, p = 0, 1
+        while p <= INT_RANGE[t][1]:
+            p *= divisors[0]
+            n += 1
+        return n
+
+    def fuel_loop(self, e, fuel, rest, env, mode, rvars, want, comment):
+        """`while c { body }` with a translation-time iteration bound: `loopN fuel (fun st => c) (fun st => body) st0`
+        over the tuple `st` of the variables the body assigns."""
+        names = set()
+        assigned_vars(e[2], names)
+        mvars = [v for v in env if v in names and not v.startswith("$")]
+        if contains_kind(e[2], ("return", "try", "while")):
+            raise Unsupported("`return`, `?` or a nested loop inside a `while` body")
+        lenv = dict(env)
+        for key in ("$k", "$l"):
+            tab = dict(env.get(key, {}))
+            for v in mvars:
+                tab.pop(v, None)
+            lenv[key] = tab
+        items = self.strip_unit_tail(self.block_items(e[2]))
+        inner = set()
+        let_bound(items, inner)
+        if inner & set(mvars):
+            raise Unsupported("the loop body both declares and assigns `%s`" % sorted(inner & set(mvars))[0])
+        self.check_leak(items, rest, env)
+        saved, self.try_binds = self.try_binds, None
+        try:
+            cprop = self.tr_prop(e[1], lenv)
+            bnode, bt = self.seq(items, dict(lenv), "vars", mvars, None)
+        finally:
+            self.try_binds = saved
+        tys = [env[v] for v in mvars]
+        if len(mvars) == 1:
+            binder = [(lean_ident(mvars[0]), lean_type(tys[0]))]
+            unpack = lambda body: body
+            sty = tys[0]
+            init = A(lean_ident(mvars[0]))
+            pat = ("pvar", mvars[0])
+        else:
+            st = self.fresh("st")
+            sty = ("tuple", tuple(tys))
+            binder = [(st, lean_type(sty))]
+            def unpack(body):
+                for i in reversed(range(len(mvars))):
+                    body = mk_let("%s : %s" % (lean_ident(mvars[i]), lean_type(tys[i])), ("proj", A(st), i, len(mvars)), body)
+                return body
+            init = ("tuple", [A(lean_ident(v)) for v in mvars])
+            pat = ("ptuple", [("pvar", v) for v in mvars])
+        loop = ("app", "loopN", [("num", fuel), ("lamT", binder, unpack(("app", "decide", [cprop]))),
+                                 ("lamT", binder, unpack(bnode)), init], ("loop",))
+
+        def rest_fn(env2):
+            env3 = dict(env2)
+            for v in mvars:
+                env3[v] = env[v]
+            return self.seq(rest, env3, mode, rvars, want)
+        # the literal-tuple shortcut of bind_pattern must not fire: the value is the loop, not a tuple literal
+        return self.bind_pattern(pat, loop, sty, env, comment, rest_fn)
 
     @staticmethod
     def block_items(blk):
@@ -2914,7 +3649,20 @@ class Translator(object):
         if e[0] == "return":
             if e[1] is None:
                 return ("tuple", []), "unit"
+            if self.loop_ret:
+                depth, self.loop_ret = self.loop_ret, 0
+                try:
+                    node, t = self.tail_value(e[1], env, want)
+                finally:
+                    self.loop_ret = depth
+                return ("app", "some", [node]), ("option", t)
             return self.tail_value(e[1], env, want)
+        if self.loop_ret:
+            raise Unsupported("a value in tail position of a search-loop body")
+        if self.writer_var is not None:
+            if e == ("call", ["Ok"], [("tuple", [])]):
+                return A(lean_ident(self.writer_var)), BYTES
+            raise Unsupported("a function writing to a `fmt::Write` sink must end in `Ok(())`")
         (val, vt), binds = self.with_tries("tail", lambda: self.tr_expr(e, env, want))
         return self.wrap_tries(binds, val, vt)
 
@@ -2951,6 +3699,91 @@ class Translator(object):
                 items = self.strip_unit_tail(self.block_items(body)) + rest if rest else self.block_items(body)
                 return self.seq(items, dict(env2), "tail", None, want)
             return self.branch_value(body, env2, want, "value")
+
+        def opt_simple(pat, guard):
+            return guard is None and (pat[0] == "pwild" or (
+                pat[0] == "pctor" and (not pat[2] or (len(pat[2]) == 1 and pat[2][0][0] in ("pvar", "pwild")))))
+
+        if isinstance(st, tuple) and st[0] == "option" and st[1] is not None and is_intlike(st[1]) \
+                and not all(opt_simple(p_, g_) for p_, g_, _ in arms):
+            # guards / literal payload patterns / `Some(a) | Some(b)`: one `some v` arm holding an `if` chain over the
+            # arms that can match a `Some`, one `none` arm likewise
+            el = st[1]
+            pv = sorted(set(q[2][0][1] for p_, _, _ in arms for q in (p_[1] if p_[0] == "por" else [p_])
+                            if q[0] == "pctor" and q[1][-1] == "Some" and len(q[2]) == 1 and q[2][0][0] == "pvar"))
+            v = pv[0] if len(pv) == 1 else self.fresh("o")
+            vn = A(lean_ident(v))
+
+            def payload_cond(p_):
+                if p_[0] in ("pvar", "pwild"):
+                    return None
+                if p_[0] == "plit":
+                    return ("bin", "=", vn, ("num", p_[1]))
+                if p_[0] == "prange":
+                    return ("bin", "∧", ("bin", "≤", ("num", p_[1]), vn), ("bin", "≤", vn, ("num", p_[2])))
+                if p_[0] == "por":
+                    cs = [payload_cond(q) for q in p_[1]]
+                    if any(c is None for c in cs):
+                        return None
+                    c = cs[-1]
+                    for x in reversed(cs[:-1]):
+                        c = ("bin", "∨", x, c)
+                    return c
+                raise Unsupported("pattern kind %s inside `Some(..)`" % p_[0])
+
+            def chain_for(side):
+                chain, final, rt_ = [], None, "never"
+                for pat, guard, body in arms:
+                    alts = pat[1] if pat[0] == "por" else [pat]
+                    conds, bind, hit = [], None, False
+                    for q in alts:
+                        if q[0] == "pwild":
+                            hit, conds = True, conds + [None]
+                        elif q[0] == "pctor" and q[1][-1] == "Some" and len(q[2]) == 1:
+                            if side == "some":
+                                hit = True
+                                conds.append(payload_cond(q[2][0]))
+                                if q[2][0][0] == "pvar":
+                                    bind = q[2][0][1]
+                        elif q[0] == "pctor" and q[1][-1] == "None" and not q[2]:
+                            if side == "none":
+                                hit, conds = True, conds + [None]
+                        else:
+                            raise Unsupported("match arm pattern on %s" % type_str(st))
+                    if not hit:
+                        continue
+                    if bind is not None and len(alts) > 1:
+                        raise Unsupported("a binding inside an or-pattern")
+                    env2 = env
+                    if side == "some" and (bind is not None or v in pv):
+                        env2 = dict(env)
+                        env2[bind or v] = el if el != "lit" else "i32"
+                    c = None
+                    if not any(x is None for x in conds):
+                        c = conds[-1]
+                        for x in reversed(conds[:-1]):
+                            c = ("bin", "∨", x, c)
+                    if guard is not None:
+                        g = self.tr_prop(guard, env2)
+                        c = g if c is None else ("bin", "∧", c, g)
+                    n, t = arm_value(body, env2)
+                    if bind is not None and bind != v:
+                        n = mk_let("%s : Int" % lean_ident(bind), vn, n)
+                    rt_ = join_types(rt_, t, "match")
+                    if c is None:
+                        final = n
+                        break
+                    chain.append((c, n))
+                if final is None:
+                    raise Unsupported("non-exhaustive match on %s" % type_str(st))
+                node = final
+                for c, n in reversed(chain):
+                    node = ("ite", c, n, node, None)
+                return node, rt_
+            some_n, some_t = chain_for("some")
+            none_n, none_t = chain_for("none")
+            rt = join_types(some_t, none_t, "match")
+            return self.wrap_tries(binds, ("match", sn, [("some " + lean_ident(v), some_n), ("none", none_n)], comment), rt)
 
         if isinstance(st, tuple) and st[0] in ("option", "result"):
             out, rt = [], "never"
@@ -3043,6 +3876,8 @@ class Translator(object):
                 # exhaustive without a wildcard only for bool true/false
                 if (st == "bool" or (isinstance(st, tuple) and st[0] == "boolenum")) and len(chain) == 2:
                     final = chain.pop()[1]
+                elif isinstance(st, tuple) and st[0] == "enum" and self.enum_arms_exhaustive(st[1], arms):
+                    final = chain.pop()[1]      # the last arm takes what the others leave (every variant is listed)
                 else:
                     raise Unsupported("match without a final wildcard arm")
             node = final
@@ -3108,8 +3943,10 @@ def safe_of(node, fn_names):
         return s_and(*([S(node[2])] if node[2] is not None else []) + [S(v) for _, v in node[3]])
     if k == "not":
         return S(node[1])
-    if k == "imp":
+    if k in ("imp", "lamT", "forallmem"):
         return None
+    if k == "assert":       # a `debug_assert!`: the caller's contract
+        return s_and(S(node[1]), node[1], S(node[2]))
     if k == "inl":
         body = S(node[2])
         return s_and(*([S(a) for a in node[3]] + [None if body is None else ("inl", node[1], body, node[3])]))
@@ -3148,6 +3985,38 @@ def safe_of(node, fn_names):
             return s_and(sargs[0], sargs[1], ("bin", "≤", ("num", 0), ix), bound)
         if isinstance(tag, tuple) and tag[0] == "abs":
             return s_and(sargs[0], ("app", FITS_FN[tag[1]], [("app", "absI", [args[0]])]))
+        if isinstance(tag, tuple) and tag[0] in ("bidx", "bfrom", "bto", "bslice"):
+            # byte slices: `s[i]` needs i < len, `&s[lo..hi]` needs lo <= hi <= len
+            ln = ("app", "bLen", [args[0]])
+            if tag[0] == "bidx":
+                bound = s_and(("bin", "≤", ("num", 0), args[1]), ("bin", "<", args[1], ln))
+            elif tag[0] == "bslice":
+                bound = s_and(("bin", "≤", ("num", 0), args[1]), ("bin", "≤", args[1], args[2]), ("bin", "≤", args[2], ln))
+            else:
+                bound = s_and(("bin", "≤", ("num", 0), args[1]), ("bin", "≤", args[1], ln))
+            return s_and(*(sargs + [bound]))
+        if isinstance(tag, tuple) and tag[0] == "iterpred":
+            # a predicate closure applied to items of the list: safe on every item (it may be applied to any of them)
+            lam, lst = args[tag[1]], args[tag[2]]
+            body = S(lam[2])
+            q = None if body is None else ("forallmem", lam[1][0][0], lst, body)
+            return s_and(S(lst), q)
+        if isinstance(tag, tuple) and tag[0] == "fold":
+            lam, init, lst = args
+            body = S(lam[2])
+            q = None if body is None else ("app", "foldSafe", [lam, ("lamT", lam[1], body), init, lst])
+            return s_and(S(init), S(lst), q)
+        if isinstance(tag, tuple) and tag[0] == "forfirst":
+            lam, start, lst = args
+            body = S(lam[2])
+            q = None if body is None else ("app", "forFirstSafe " + tag[1], [lam, ("lamT", lam[1], body), start, lst])
+            return s_and(S(lst), q)
+        if isinstance(tag, tuple) and tag[0] == "loop":
+            fuel, cond, step, init = args
+            pc, pb = S(cond[2]), S(step[2])
+            true = A("True")
+            return s_and(S(init), ("app", "loopSafe", [fuel, cond, step, ("lamT", cond[1], pc if pc is not None else true),
+                                                      ("lamT", step[1], pb if pb is not None else true), init]))
         if name.startswith("Tr.") and name[3:] in fn_names:
             return s_and(*(sargs + [("app", name + "_safe", args)]))
         return s_and(*sargs)
@@ -3208,6 +4077,67 @@ def cmpInt (a b : Int) : Int := if a < b then -1 else if a = b then 0 else 1
 '''
 
 
+PRELUDE_FMT = r'''
+/-! ### Byte slices and the iterator idioms (fixed combinators of the translation) -/
+
+/-- `s.first()`: the first byte as a `u8` value. -/
+def bFirst (s : List Nat) : Option Int := match s with | [] => none | b :: _ => some (Int.ofNat b)
+/-- `s.len()`, `it.count()`. -/
+def bLen (s : List Nat) : Int := Int.ofNat s.length
+/-- `s[i]` (the bound `i < s.len()` is an obligation of `_safe`). -/
+def bGet (s : List Nat) (i : Int) : Int := Int.ofNat (idxD s i 0)
+/-- `&s[lo..]`, `&s[..hi]`, `&s[lo..hi]` (bounds: `_safe`). -/
+def bFrom (s : List Nat) (lo : Int) : List Nat := s.drop lo.toNat
+def bTo (s : List Nat) (hi : Int) : List Nat := s.take hi.toNat
+def bSlice (s : List Nat) (lo hi : Int) : List Nat := (s.take hi.toNat).drop lo.toNat
+/-- `s[i] = v`. -/
+def bSet (s : List Nat) (i v : Int) : List Nat := if i < 0 then s else s.set i.toNat v.toNat
+/-- `it.position(p)`. -/
+def bPosition (p : Nat → Bool) (s : List Nat) : Option Int := (s.findIdx? p).map Int.ofNat
+/-- `u8::is_ascii_digit`, `is_ascii_whitespace` (space, \t, \n, form feed, \r), `is_ascii_uppercase/lowercase`. -/
+def isAsciiDigit (b : Int) : Bool := decide (48 ≤ b ∧ b ≤ 57)
+def isAsciiWhitespace (b : Int) : Bool := decide (b = 32 ∨ b = 9 ∨ b = 10 ∨ b = 12 ∨ b = 13)
+def isAsciiUppercase (b : Int) : Bool := decide (65 ≤ b ∧ b ≤ 90)
+def isAsciiLowercase (b : Int) : Bool := decide (97 ≤ b ∧ b ≤ 122)
+def toAsciiLowercase (b : Int) : Int := if 65 ≤ b ∧ b ≤ 90 then b + 32 else b
+def toAsciiUppercase (b : Int) : Int := if 97 ≤ b ∧ b ≤ 122 then b - 32 else b
+/-- `<[u8]>::eq_ignore_ascii_case`: same length, bytewise equal after `to_ascii_lowercase`. -/
+def bEqIgnoreCase : List Nat → List Nat → Bool
+  | [], [] => true
+  | a :: s, b :: t => decide (toAsciiLowercase (Int.ofNat a) = toAsciiLowercase (Int.ofNat b)) && bEqIgnoreCase s t
+  | _, _ => false
+
+/-- Safety of `it.fold(init, f)`: the obligation `P acc x` of the closure body holds at every step. -/
+def foldSafe {α : Type} (f : α → Nat → α) (P : α → Nat → Prop) : α → List Nat → Prop
+  | _, [] => True
+  | a, x :: xs => P a x ∧ foldSafe f P (f a x) xs
+
+/-- `for (i, x) in xs.iter().enumerate() { .. return r; .. }` as a search: the first item on which the body returns
+    (`f i x = some r`), `none` when the loop runs to its end. -/
+def forFirst {β : Type} (f : Int → List Nat → Option β) : Int → List (List Nat) → Option β
+  | _, [] => none
+  | i, x :: xs => match f i x with
+    | some r => some r
+    | none => forFirst f (i + 1) xs
+
+/-- Safety of such a loop: the obligation `P i x` of the body holds for every item that is reached. -/
+def forFirstSafe {β : Type} (f : Int → List Nat → Option β) (P : Int → List Nat → Prop) : Int → List (List Nat) → Prop
+  | _, [] => True
+  | i, x :: xs => P i x ∧ (f i x = none → forFirstSafe f P (i + 1) xs)
+
+/-- `while cond(st) { st = step(st) }` with an iteration bound known at translation time. -/
+def loopN {σ : Type} : Nat → (σ → Bool) → (σ → σ) → σ → σ
+  | 0, _, _, s => s
+  | n + 1, cond, step, s => if cond s = true then loopN n cond step (step s) else s
+
+/-- Safety of such a loop: the condition (`Pc`) and, while it holds, the body (`Pb`) are safe in every state reached,
+    and the condition is false when the fuel is used up (so the bounded loop is the loop). -/
+def loopSafe {σ : Type} : Nat → (σ → Bool) → (σ → σ) → (σ → Prop) → (σ → Prop) → σ → Prop
+  | 0, cond, _, Pc, _, s => Pc s ∧ cond s = false
+  | n + 1, cond, step, Pc, Pb, s => Pc s ∧ (cond s = true → Pb s ∧ loopSafe n cond step Pc Pb (step s))
+'''
+
+
 def read_generated(path):
     ints, tables = set(), set()
     try:
@@ -3219,6 +4149,8 @@ def read_generated(path):
                         ints.add(m.group(1))
                     elif m.group(2) in ("List Int", "List (List Int)", "List (Bool × Int)"):
                         tables.add(m.group(1))
+                    elif m.group(2) in ("List (List Nat)", "List (List (List Nat))"):
+                        tables.add(m.group(1))      # tables of strings (phase 6)
     except IOError:
         pass
     return ints, tables
@@ -3266,9 +4198,11 @@ def split_params(spec):
     return [p.strip() for p in parts if p.strip()]
 
 
-def build_whitelist(world):
+def build_whitelist(world, whitelist=None, consts=None, group="base"):
     entries = []
-    for (fname, impl, fn, lean, pspec, ret, model) in WHITELIST:
+    whitelist = WHITELIST if whitelist is None else whitelist
+    consts = CONST_WHITELIST if consts is None else consts
+    for (fname, impl, fn, lean, pspec, ret, model) in whitelist:
         self_ty = impl.split(" for ")[-1].strip() if impl else None
         params = []
         for part in split_params(pspec):
@@ -3279,7 +4213,7 @@ def build_whitelist(world):
                 params.append((n.strip(), parse_wl_type(world, t.strip())))
         ent = {"kind": "fn", "file": fname, "impl": impl, "fn": fn, "lean": lean, "params_t": params,
                "ret_t": parse_wl_type(world, ret), "model": model,
-               "key": "%s::%s%s" % (fname, (impl + "::") if impl else "", fn), "self_ty": self_ty}
+               "key": "%s::%s%s" % (fname, (impl + "::") if impl else "", fn), "self_ty": self_ty, "group": group}
         entries.append(ent)
         world.wl[(impl, fn)] = ent
         if self_ty is not None and " for " not in impl:
@@ -3287,9 +4221,9 @@ def build_whitelist(world):
     for ent in entries:       # whitelisted trait methods (`DateTime::second`): callable as methods when unambiguous
         if ent["self_ty"] is not None and " for " in ent["impl"] and not ent["impl"].startswith(("From<", "Ord for", "PartialOrd", "PartialEq")):
             world.wl_by_type.setdefault((ent["self_ty"], ent["fn"]), ent)
-    for (fname, name, model) in CONST_WHITELIST:
+    for (fname, name, model) in consts:
         ent = {"kind": "const", "file": fname, "impl": None, "fn": name, "lean": name, "params_t": [],
-               "ret_t": None, "model": model, "key": "%s::%s" % (fname, name), "self_ty": None}
+               "ret_t": None, "model": model, "key": "%s::%s" % (fname, name), "self_ty": None, "group": group}
         entries.append(ent)
         world.wl[("const", name)] = ent
     return entries
@@ -3327,10 +4261,19 @@ def translate_entry(world, ent):
     if getattr(item, "generic", False):
         raise Unsupported("generic function")
     tr = Translator(world, item.file, ent["self_ty"])
+    tr.contracts = ent.get("group") == "fmt"
     params = []
     for pn, ptoks in item.params:
         if pn is None:
             raise Unsupported("pattern parameter")
+        if getattr(item, "writer", None) and ptoks is not None and [x.text for x in ptoks if x.text not in ("&", "mut")] == [item.writer]:
+            if tr.writer_var is not None:
+                raise Unsupported("two `fmt::Write` parameters")
+            tr.writer_var = pn          # not a parameter of the translation: it returns the bytes written
+            continue
+        if getattr(item, "clock", None) and ptoks is not None and [x.text for x in ptoks if x.text not in ("&", "mut")] == [item.clock]:
+            params.append((pn, CLOCK))
+            continue
         if ptoks is None:
             if ent["self_ty"] is None:
                 raise Unsupported("`self` in a free function")
@@ -3345,12 +4288,16 @@ def translate_entry(world, ent):
     ret = tr.resolve(parse_type_toks(item.ret)) if item.ret else "unit"
     if getattr(item, "mut_self", False) and ret == "unit":
         ret = params[0][1]          # a `&mut self` method is translated as returning the new `self`
+    if tr.writer_var is not None:
+        if ret != ("result", "unit"):
+            raise Unsupported("a function writing to a `fmt::Write` sink must return `Result<()>`")
+        ret = BYTES
     if lean_type(ret) != lean_type(ent["wl_ret_t"]):
         raise Unsupported("return type changed: %s, whitelisted %s" % (type_str(ret), type_str(ent["wl_ret_t"])))
     node, t = tr.translate_body(item, params, ret)
     fn_names = set(e["lean"] for e in world.wl.values() if e["kind"] == "fn")
     return {"safe": safe_of(node, fn_names), "node": node, "deps": tr.deps, "inlined": sorted(set(tr.inlined)), "line": item.line, "params": params,
-            "ret": ret, "sha1": hashlib.sha1(item.src_text.encode()).hexdigest()}
+            "ret": ret, "sha1": hashlib.sha1(item.src_text.encode()).hexdigest(), "note": "; ".join(tr.notes)}
 
 
 def emit_def(ent, res):
@@ -3407,10 +4354,15 @@ def main(argv=None):
     gen_ints, gen_tables = read_generated(os.path.join(args.out_dir, "Generated.lean"))
     world = World(crate, gen_ints, gen_tables)
     entries = build_whitelist(world)
+    # phase 6: a second group of entries with its own output files.  While the first group is translated the
+    # second one is invisible, so `Translated.lean` cannot come to depend on it.
+    base_wl, base_by_type = dict(world.wl), dict(world.wl_by_type)
+    fmt_entries = build_whitelist(world, FMT_WHITELIST, [], "fmt")
+    full_wl, full_by_type = world.wl, world.wl_by_type
 
     # the signature a caller sees is the one in the source, as long as its Lean type is the whitelisted one
     # (an `i64` parameter turned `u64` keeps the theorem statement; its range hypotheses are the whitelisted ones)
-    for ent in entries:
+    for ent in entries + fmt_entries:
         ent["wl_params_t"], ent["wl_ret_t"] = ent["params_t"], ent["ret_t"]
         if ent["kind"] != "fn":
             continue
@@ -3432,71 +4384,81 @@ def main(argv=None):
         except Exception:
             pass
 
-    results, status = {}, []
-    for ent in entries:
-        try:
-            if args.force_stubs:
-                raise Unsupported("forced by --force-stubs")
-            results[ent["lean"]] = translate_entry(world, ent)
-        except Unsupported as ex:
-            results[ent["lean"]] = str(ex)
-        except RecursionError:
-            results[ent["lean"]] = "translator error: recursion too deep"
-        except Exception as ex:     # a translator bug must not take the check run down: degrade, loudly
-            results[ent["lean"]] = "translator error: %s: %s" % (type(ex).__name__, ex)
-            if args.verbose:
-                traceback.print_exc()
+    def run_group(entries):
+        """Translate the entries of one output file: (bodies of the definitions, status records, has stubs)."""
+        results, status = {}, []
+        for ent in entries:
+            try:
+                if args.force_stubs:
+                    raise Unsupported("forced by --force-stubs")
+                results[ent["lean"]] = translate_entry(world, ent)
+            except Unsupported as ex:
+                results[ent["lean"]] = str(ex)
+            except RecursionError:
+                results[ent["lean"]] = "translator error: recursion too deep"
+            except Exception as ex:     # a translator bug must not take the check run down: degrade, loudly
+                results[ent["lean"]] = "translator error: %s: %s" % (type(ex).__name__, ex)
+                if args.verbose:
+                    traceback.print_exc()
 
-    # dependency order (Lean wants definitions before uses); cycles degrade
-    by_lean = {e["lean"]: e for e in entries}
-    order, state = [], {}
+        # dependency order (Lean wants definitions before uses); cycles degrade
+        by_lean = {e["lean"]: e for e in entries}
+        order, state = [], {}
 
-    def visit(name, stack):
-        if state.get(name) == 2:
+        def visit(name, stack):
+            if state.get(name) == 2:
+                return True
+            if state.get(name) == 1:
+                return False
+            state[name] = 1
+            res = results[name]
+            if isinstance(res, dict):
+                for d in sorted(res["deps"]):
+                    if d in by_lean and not visit(d, stack + [name]):
+                        results[name] = "recursive call chain through %s" % d
+                        break
+            state[name] = 2
+            order.append(name)
             return True
-        if state.get(name) == 1:
-            return False
-        state[name] = 1
-        res = results[name]
-        if isinstance(res, dict):
-            for d in sorted(res["deps"]):
-                if d in by_lean and not visit(d, stack + [name]):
-                    results[name] = "recursive call chain through %s" % d
-                    break
-        state[name] = 2
-        order.append(name)
-        return True
 
-    for ent in entries:
-        visit(ent["lean"], [])
+        for ent in entries:
+            visit(ent["lean"], [])
 
-    stubs = [n for n in order if not isinstance(results[n], dict)]
-    body = []
-    for n in stubs:
-        body.append(emit_stub(world, by_lean[n], results[n]))
-    for n in order:
-        if isinstance(results[n], dict):
-            body.append(emit_def(by_lean[n], results[n]))
-    for ent in entries:
-        res = results[ent["lean"]]
-        rec = {"function": ent["key"], "lean": "SqlDt.Tr." + ent["lean"], "model": ent["model"]}
-        if isinstance(res, dict):
-            rec.update({"status": "translated", "sha1": res["sha1"], "line": res["line"]})
-            if ent["kind"] == "fn":
-                # "proved" = the predicate `Tr.f_safe` is generated from the Rust body and Lemmas/TranslatedSafe.lean
-                # (which must build) proves it; a stub has no predicate
-                rec["safety"] = "proved"
-            if res["inlined"]:
-                rec["inlined"] = res["inlined"]
-            if ent.get("sig_note"):
-                rec["note"] = ent["sig_note"]
-            if res["deps"]:
-                rec["calls"] = sorted("SqlDt.Tr." + d for d in res["deps"])
-        else:
-            rec.update({"status": "untranslated", "reason": res})
-            if ent["kind"] == "fn":
-                rec["safety"] = "untranslated"
-        status.append(rec)
+        stubs = [n for n in order if not isinstance(results[n], dict)]
+        body = []
+        for n in stubs:
+            body.append(emit_stub(world, by_lean[n], results[n]))
+        for n in order:
+            if isinstance(results[n], dict):
+                body.append(emit_def(by_lean[n], results[n]))
+        for ent in entries:
+            res = results[ent["lean"]]
+            rec = {"function": ent["key"], "lean": "SqlDt.Tr." + ent["lean"], "model": ent["model"]}
+            if isinstance(res, dict):
+                rec.update({"status": "translated", "sha1": res["sha1"], "line": res["line"]})
+                if ent["kind"] == "fn":
+                    # "proved" = the predicate `Tr.f_safe` is generated from the Rust body and Lemmas/TranslatedSafe.lean
+                    # (which must build) proves it; a stub has no predicate
+                    rec["safety"] = "proved"
+                if res["inlined"]:
+                    rec["inlined"] = res["inlined"]
+                if ent.get("sig_note"):
+                    rec["note"] = ent["sig_note"]
+                if res.get("note"):
+                    rec["note"] = (rec.get("note", "") + "; " if rec.get("note") else "") + res["note"]
+                if res["deps"]:
+                    rec["calls"] = sorted("SqlDt.Tr." + d for d in res["deps"])
+            else:
+                rec.update({"status": "untranslated", "reason": res})
+                if ent["kind"] == "fn":
+                    rec["safety"] = "untranslated"
+            status.append(rec)
+        return body, status, stubs
+
+    world.wl, world.wl_by_type = base_wl, base_by_type
+    body, status, stubs = run_group(entries)
+    world.wl, world.wl_by_type = full_wl, full_by_type
+    fmt_body, fmt_status, fmt_stubs = run_group(fmt_entries)
 
     header = [
         "/-",
@@ -3515,6 +4477,21 @@ def main(argv=None):
     header += ["set_option linter.unusedVariables false", "namespace SqlDt.Tr", "open SqlDt SqlDt.Gen", PRELUDE]
     text = "\n".join(header) + "\n" + "\n\n".join(body) + "\n\nend SqlDt.Tr\n"
 
+    fmt_header = [
+        "/-",
+        "  GENERATED FILE - do not edit.  Written by tools/rs2lean.py from <repo>/src/format.rs on every run (phase 6).",
+        "  The byte-slice leaf functions of the formatter / parser: `&[u8]` is `List Nat` (the model's `Bytes`), a byte taken",
+        "  out of a slice is an `Int` (`Int.ofNat b`, Rust type `u8`), `usize` is `Int`.  Slicing, indexing and the iterator",
+        "  idioms are the fixed combinators below; their bounds are obligations of the `_safe` predicates.",
+        "  `-- UNTRANSLATED` definitions are aliases of the hand-written model (see TranslatedFmtStatus.json).",
+        "-/",
+        "import SqlDt.Translated",
+    ]
+    if fmt_stubs:
+        fmt_header.append("import SqlDt.Model.Parse   -- only because of the UNTRANSLATED aliases below")
+    fmt_header += ["set_option linter.unusedVariables false", "namespace SqlDt.Tr", "open SqlDt SqlDt.Gen", PRELUDE_FMT]
+    fmt_text = "\n".join(fmt_header) + "\n" + "\n\n".join(fmt_body) + "\n\nend SqlDt.Tr\n"
+
     def write_if_changed(path, content):
         try:
             with open(path) as f:
@@ -3528,9 +4505,18 @@ def main(argv=None):
     write_if_changed(os.path.join(args.out_dir, "Translated.lean"), text)
     write_if_changed(os.path.join(args.out_dir, "TranslatedStatus.json"),
                      json.dumps({"repo": os.path.abspath(args.repo), "functions": status}, indent=1, sort_keys=True) + "\n")
+    write_if_changed(os.path.join(args.out_dir, "TranslatedFmt.lean"), fmt_text)
+    write_if_changed(os.path.join(args.out_dir, "TranslatedFmtStatus.json"),
+                     json.dumps({"repo": os.path.abspath(args.repo), "functions": fmt_status}, indent=1, sort_keys=True) + "\n")
     n_ok = sum(1 for s in status if s["status"] == "translated")
     print("rs2lean: %d translated, %d untranslated (of %d whitelisted)" % (n_ok, len(status) - n_ok, len(status)))
     for s in status:
+        if s["status"] != "translated":
+            print("  untranslated: %-50s %s" % (s["function"], s["reason"]))
+    n_ok = sum(1 for s in fmt_status if s["status"] == "translated")
+    print("rs2lean (format.rs leaves): %d translated, %d untranslated (of %d whitelisted)" % (
+        n_ok, len(fmt_status) - n_ok, len(fmt_status)))
+    for s in fmt_status:
         if s["status"] != "translated":
             print("  untranslated: %-50s %s" % (s["function"], s["reason"]))
     return 0
